@@ -32,7 +32,8 @@ RULE = ("one run = one buffer (capacity 1-12, period 7 us/1 ms/0.5 s/1 s/1.00000
         "2-4 window queries (indices incl. None/negative/out of range, datetimes inside/outside/straddling/unaligned/closer "
         "than one period/reversed; fill NaN/number/None); non-trivial = the history contains an out-of-order, too-old, jump, "
         "missing-value or off-grid update; distinct = abstract digest of (update kind) sequence"
-        " Also: periods of 100 and 200 ms, queries of the buffer before its first update.")
+        " Also: periods of 100 and 200 ms, queries of the buffer before its first update."
+        " Fill value 0.0 drawn as well.")
 QUICK_RUNS = 6000
 THOROUGH_RUNS = 400_000
 EXPECT_PROBES = ["too_old_rejected", "jump_beyond_capacity", "out_of_order_in_window", "missing_value_update", "overwrite",
